@@ -36,6 +36,18 @@ else:
         t.snapshot_manager.delete_snapshot(arg["snapshot"])
     elif op == "gc":
         t.garbage_collect(grace_period_ms=0)
+    elif op == "append-prebuilt":
+        # a data file built by the CALLER (plain pyarrow write: no fsync, a new partition directory) queued through the file-level API
+        import os
+        import pyarrow as pa
+        import pyarrow.parquet as pq
+        from datashard.data_structures import DataFile, FileFormat
+        rel = "data/region=eu/part-0.parquet"
+        os.makedirs(os.path.join(path, "data/region=eu"), exist_ok=True)
+        sch = t.file_manager.data_file_manager.create_arrow_schema(tablekit.schema())
+        pq.write_table(pa.Table.from_pylist(tablekit.rows(2, start=900, tag="pre"), schema=sch), os.path.join(path, rel))
+        t.append_data([DataFile(file_path="/" + rel, file_format=FileFormat.PARQUET, partition_values={}, record_count=2,
+                                file_size_in_bytes=os.path.getsize(os.path.join(path, rel)))])
     elif op == "shared-overlap":
         # two threads committing through ONE Table object: thread A is held just before it writes its manifest list (its data file and
         # manifest are written), thread B commits completely meanwhile; the trace up to the marker is judged against B's version
